@@ -9,11 +9,11 @@ set -u
 PROP=$1; MDIR=$2; WT=$3; shift 3
 export GOFLAGS=-mod=mod GOPROXY=off GOSUMDB=off GOTOOLCHAIN=local
 NAME=$(basename "$MDIR")
-case "$MDIR" in *_out2*) NAME="r2$NAME";; *_out3*) NAME="r3$NAME";; *_out4*) NAME="r4$NAME";; esac
+case "$MDIR" in *_out2*) NAME="r2$NAME";; *_out3*) NAME="r3$NAME";; *_out4*) NAME="r4$NAME";; *_out5*) NAME="r5$NAME";; esac
 OUT=/var/tmp/mutout/$PROP-$NAME
 rm -rf "$OUT"; mkdir -p "$OUT"
 cd "$WT" || exit 2
-git checkout -q -- . ; git clean -fdq -e _out -e _out2 -e _out3 -e _out4
+git checkout -q -- . ; git clean -fdq -e _out -e _out2 -e _out3 -e _out4 -e _out5
 DEMOFILES=$(ls "$MDIR" | grep -E '_test\.go$|\.go$' | grep -v '^patch')
 rundemo() {
   # demos are test files for the project root unless DEMO.txt says otherwise
@@ -26,7 +26,7 @@ rundemo() {
   [ -z "$cmd" ] && cmd="go test -vet=off -count=1 ./..."
   ( cd "$WT" && timeout 600 bash -c "$cmd" ) > "$OUT/demo-$1.log" 2>&1
   rc=$?
-  for f in $DEMOFILES; do find "$WT" -name "$f" -not -path "*/_out/*" -not -path "*/_out2/*" -not -path "*/_out3/*" -not -path "*/_out4/*" -delete; done
+  for f in $DEMOFILES; do find "$WT" -name "$f" -not -path "*/_out/*" -not -path "*/_out2/*" -not -path "*/_out3/*" -not -path "*/_out4/*" -not -path "*/_out5/*" -delete; done
   return $rc
 }
 rundemo clean; DEMO_CLEAN=$?
@@ -38,4 +38,4 @@ echo "$PROP $NAME: build=$BUILD tests=$TESTS demo_clean=$DEMO_CLEAN demo_patched
 for c in "$@"; do
   ( cd /verif && VERIF_REPO="$WT" VERIF_OUT="$OUT" timeout 2400 ./check "$c" --tier quick > "$OUT/check-$c.log" 2>&1; echo "$PROP $NAME: check $c rc=$? $(grep -c '^VIOLATION' "$OUT/check-$c.log") violation line(s): $(grep -m1 'violation:' "$OUT/check-$c.log" | cut -c1-220)" ) | tee -a "$OUT/confirm.txt"
 done
-cd "$WT" && git checkout -q -- . && git clean -fdq -e _out -e _out2 -e _out3 -e _out4
+cd "$WT" && git checkout -q -- . && git clean -fdq -e _out -e _out2 -e _out3 -e _out4 -e _out5
